@@ -96,7 +96,7 @@ class Graph:
                 todo.append(b)
         return None
 
-    def cover(self, rng, max_len):
+    def cover(self, rng, max_len, max_walks=None):
         uncovered = set(self.usable)
         fresh_out = collections.defaultdict(set)
         for k in uncovered:
@@ -128,6 +128,8 @@ class Graph:
             if len(uncovered) == before:
                 break
             walks.append(walk)
+            if max_walks and len(walks) >= max_walks:
+                break
         return walks, len(uncovered)
 
     def random_walk(self, rng, n):
@@ -249,7 +251,8 @@ def run(chk):
             g = Graph(path)
             walks = []
             if full_quick or not quick:
-                walks, left = g.cover(rng, 80 if na == 2 else 150)
+                # the largest graph is covered as far as the budget goes (the rest is reported as uncovered)
+                walks, left = g.cover(rng, 80 if na == 2 else 150, max_walks=350 if len(g.edges) > 50000 else None)
                 cover_note[name] = {"edges": len(g.edges), "usable": len(g.usable), "uncovered": left, "walks": len(walks),
                                     "dead_end_edges_excluded": len(g.edges) - len(g.usable)}
             nrand = (6 if quick else 40)
